@@ -126,7 +126,7 @@ def run(chk, replay=None):
         if corpus:
             absorb(corpus, R.run_impl(corpus))
         bound = 3 if tier == "quick" else 4
-        per_cfg = 800 if tier == "quick" else 40000
+        per_cfg = 800 if tier == "quick" else 15000
         cfgs = []
         for (name, prefix, later, threads, scripts) in small_configs(tier):
             for poller in ("epoll", "poll"):
@@ -158,7 +158,7 @@ def run(chk, replay=None):
             e = enums[name]
             stats["systematic_runs"] += e.nruns
             stats["configs"][name] = {"runs": e.nruns, "exhaustive_within_bound": e.exhaustive(), "preemption_bound": bound}
-        nrand = 3000 if tier == "quick" else 100000
+        nrand = 3000 if tier == "quick" else 120000
         cases = [gen_random_case(rng, "r%d" % i, allow_pre_queue=True) for i in range(nrand)]
         for i in range(0, len(cases), 20000):
             chunk = cases[i:i + 20000]
